@@ -63,6 +63,11 @@ MEMBERS = {
     "bad_both": {"jsonrpc": "2.0", "id": 3, "result": {}, "error": {"code": 1, "message": "m"}},
     "bad_nested": [{"jsonrpc": "2.0", "id": 9, "method": "ping"}],
 }
+MEMBERS["resp_says_old_version"] = {"jsonrpc": "2.0", "id": 71, "result": {"protocolVersion": "2024-11-05", "upstream": "gateway"}}
+MEMBERS["resp_says_new_version"] = {"jsonrpc": "2.0", "id": 72, "result": {"protocolVersion": "2025-06-18", "serverInfo": {"name": "x", "version": "1"},
+                                                                        "capabilities": {}}}
+
+
 def _deep(n):
     d = {"leaf": 1}
     for _ in range(n):
@@ -117,6 +122,14 @@ def transport_cases(ctx):
     for v in OFFERED_ONLY:
         for b in [["req", "note"], ["resp"]]:
             yield {"handshake": v, "offered": [v, "2025-06-18"], "schedule": [["batch", b], ["single", "note"]]}
+    # an ordinary response whose result happens to carry a protocolVersion member (a gateway reporting its upstream)
+    # arrives between the negotiation and a batch: the mode stays the negotiated one
+    for v in (None, "2025-03-26", "2025-06-18", "2024-11-05", "2025-06-19"):
+        for sayer in ("resp_says_old_version", "resp_says_new_version"):
+            for b in (["req", "note"], ["resp"]):
+                yield {"schedule": [["version", v], ["single", sayer], ["batch", b], ["single", "note"]]}
+                hv = v or "2025-06-18"
+                yield {"handshake": hv, "offered": [hv, "2025-06-18"], "schedule": [["single", sayer], ["batch", b], ["single", "note"]]}
     # batches with more members than the read stream buffers (100)
     for v in (None, "2025-03-26", "2025-06-18"):
         for n in (100, 101, 150) if ctx.tier == "quick" else (100, 101, 150, 400, 1000):
@@ -197,7 +210,8 @@ def exec_transport(ctx, case: Dict[str, Any]) -> None:
             continue
         got.append(msg_to_wire(m))
     if "handshake" in case:
-        got = [g for g in got if not (isinstance(g.get("result"), dict) and "protocolVersion" in g["result"])]
+        got = [g for g in got if not (isinstance(g.get("result"), dict) and "protocolVersion" in g["result"]
+                                      and g.get("id") not in (71, 72))]   # the answer to the handshake itself
     exp_n = [(norm_wire(e), req) for e, req in expected_read]
     got_n = [norm_wire(g) for g in got]
     ok, why = seq_match(got_n, exp_n)
